@@ -63,7 +63,7 @@ func runC16(w *World) *Result {
 		if role == "batch" {
 			c16Labels(w, b, r)
 			// jumps stay inside their construct: labels/flags read back from the opener's stack entry
-			AllocRule(w, b, r, "R-C16-jumps")
+			AllocRule(w, b, r, "R-C16-jumps", true)
 		}
 	}
 	return r
